@@ -27,7 +27,10 @@ TRUSTED_BASE = [
     "hand model coq/C03/Model.v of make_graph, remove_bonds_invalid_valancies, are_linear (squared-cosine form), "
     "are_planar (normal search), distance/angle/dihedral numerators - tied by the correspondence streams",
     "exact rationals stand for IEEE doubles up to rounding: decisions whose exact margin is below 1e-9 relative "
-    "(bond threshold, valence-cap ties, linear / planar thresholds) are skipped and counted",
+    "(bond threshold, linear / planar thresholds) are skipped and counted; the valence cap orders neighbours by "
+    "(round(distance, 6), index) in the code (/repo 3e32450) and by (exact distance, index) in the model: a cut between "
+    "two different distances closer than 1.1e-6 A, or an exact tie on a rounding boundary, is a skipped margin class; "
+    "exact ties are in the correspondence and probed in extra random rotations (key make_graph|valence-cap-tie|rotation)",
     "sqrt / acos / atan2 are outside the theorems (squared distances, cosine and dihedral numerators are proved "
     "invariant; the dihedral itself is -atan2(S / sqrt L, C))",
     "RDKit (ETKDG embedding) only as a generator of test geometries; networkx adjacency-order semantics",
@@ -62,7 +65,17 @@ PINS = [("autode/mol_graphs.py", q) for q in (
         "Atom.__init__", "Atom.coord", "Atoms.coordinates", "Atoms.idxs_are_present", "Atoms.distance",
         "AtomCollection.n_atoms", "AtomCollection.coordinates", "AtomCollection.distance",
         "AtomCollection.eqm_bond_distance", "AtomCollection.angle", "AtomCollection.dihedral")] + [
-    ("autode/species/species.py", q) for q in ("Species.graph", "Species.bond_matrix", "Species.reorder_atoms")]
+    ("autode/species/species.py", q) for q in ("Species.graph", "Species.bond_matrix", "Species.reorder_atoms")] + [
+    # not modelled (the symmetry number is an oracle) but the frame / permutation / state oracles were written against
+    # these, and rigid motions are applied through them in the api-motions stream
+    ("autode/thermochemistry/symmetry.py", q) for q in (
+        "strip_identical_and_inv_axes", "get_possible_axes", "is_same_under_n_fold", "cn_and_axes", "create_pcoords",
+        "symmetry_number")] + [
+    ("autode/geom.py", "get_rot_mat_euler"), ("autode/geom.py", "get_rot_mat_euler_from_terms"),
+    ("autode/species/species.py", "Species.sn"), ("autode/species/species.py", "Species.rotate"),
+    ("autode/species/species.py", "Species.translate"), ("autode/species/species.py", "Species._set_rigidly_moved_coordinates"),
+    ("autode/species/species.py", "Species.coordinates"),
+    ("autode/atoms.py", "Atom.rotate"), ("autode/atoms.py", "Atom.translate")]
 
 SLICE = ["lib/QcInst.v", "C03/Vec.v", "C03/Model.v", "C03/Lemmas.v", "C03/Props.v", "C03/Corr.v", "gen/C03_Gen.v"]
 PRE = ("From Coq Require Import ZArith QArith Qcanon List String Bool.\nFrom AV.lib Require Import QcInst.\n"
@@ -158,7 +171,15 @@ def hand_templates():
         [[0, 0, 0], [1.765625, 0, 0], [-1.765625, 0, 0], [0, 1.765625, 0], [0, -1.765625, 0], [0, 0, 1.6875]])
     add("IF5-apex-second", "tetra", ["I", "F", "F", "F", "F", "F"],
         [[0, 0, 0], [0, 0, 1.6875], [1.765625, 0, 0], [-1.765625, 0, 0], [0, 1.765625, 0], [0, -1.765625, 0]])
+    add("SO2-OSO", "planar", ["O", "S", "O"], [[1.234375, 0.71875, 0], [0, 0, 0], [-1.234375, 0.71875, 0]])
+    add("H2O-HOH", "planar", ["H", "O", "H"], [[0.75, 0.59375, 0], [0, 0, 0], [-0.75, 0.59375, 0]])
+    add("CH2F2", "tetra", ["C", "F", "F", "H", "H"],
+        [[0, 0, 0], [1.109375, 0.78125, 0], [-1.109375, 0.78125, 0], [0, -0.625, 0.890625], [0, -0.625, -0.890625]])
     # --- metal centres
+    add("K2-long-bond", "metal", ["K", "K"], [[0, 0, 0], [4.5, 0, 0]])
+    add("K2-long-bond-diag", "metal", ["K", "K"], [[0, 0, 0], [3.1875, 3.1875, 0]])
+    add("CsI-long-bond", "metal", ["Cs", "I"], [[0, 0, 0], [2.5, 2.5, 2.5]])
+    add("Fe2-dimer-CO", "metal", ["Fe", "Fe", "C", "O"], [[0, 0, 0], [2.5, 0, 0], [-1.78125, 0, 0], [-2.9375, 0, 0]])
     add("FeO6-octahedral", "metal", ["Fe"] + ["O"] * 6,
         [[0, 0, 0], [2.09375, 0, 0], [-2.09375, 0, 0], [0, 2.09375, 0], [0, -2.09375, 0], [0, 0, 2.09375], [0, 0, -2.09375]])
     add("PtCl4-square", "metal", ["Pt"] + ["Cl"] * 4, [[0, 0, 0], [2.3125, 0, 0], [-2.3125, 0, 0], [0, 2.3125, 0], [0, -2.3125, 0]])
@@ -171,6 +192,8 @@ def hand_templates():
         [[0, 0, 0], [1.09375, 0, 0], [-0.359375, 1.046875, 0], [-0.359375, -0.53125, 0.921875], [-0.375, -0.546875, -0.9375], [0.640625, 0.640625, 0.640625]])
     add("CH5-ties", "crowded", ["C", "H", "H", "H", "H", "H"],
         [[0, 0, 0], [1.09375, 0, 0], [-1.09375, 0, 0], [0, 1.09375, 0], [0, -1.09375, 0], [0, 0, 1.09375]])
+    add("SN2-ClCH3Cl", "crowded", ["C", "Cl", "Cl", "H", "H", "H"],     # symmetric TS: two equal C-Cl at the cap cut
+        [[0, 0, 0], [0, 0, 2.296875], [0, 0, -2.296875], [1.0625, 0, 0], [-0.53125, 0.921875, 0], [-0.53125, -0.921875, 0]])
     add("SF6", "crowded", ["S"] + ["F"] * 6,
         [[0, 0, 0], [1.5625, 0, 0], [-1.5625, 0, 0], [0, 1.5625, 0], [0, -1.5625, 0], [0, 0, 1.5625], [0, 0, -1.5625]])
     add("PF5", "crowded", ["P"] + ["F"] * 5,
@@ -291,16 +314,29 @@ QUATS = [(1, 2, 2, 4), (1, 1, 1, 1), (2, 1, 0, 0), (1, 2, 4, 6), (3, 1, 1, 1), (
 MIRRORS = [(1, 0, 0), (0, 0, 1), (1, 1, 0), (1, 2, 2), (2, 3, 6), (1, -1, 1)]
 
 
-def frames(rng, n_rot, n_ref):
+def random_rot(rng):
+    """exactly orthogonal rational rotation from a random integer quaternion: generic axis and angle
+    (the fixed QUATS are all 'nice'; rounding-driven frame dependence needs generic ones)"""
+    while True:
+        q = tuple(rng.randrange(-60, 61) for _ in range(4))
+        if sum(1 for x in q if x) >= 3:
+            return q, quat_rot(*q)
+
+
+def frames(rng, n_rot, n_ref, n_rand=1):
     fr = [("translate", I3, [F(rng.randrange(-40, 41), 8) for _ in range(3)], 1)]
+    for _ in range(n_rand):
+        q, R = random_rot(rng)
+        fr.append((f"randrot{q}", R, [F(rng.randrange(-24, 25), 8) for _ in range(3)], 1))
     for q in rng.sample(QUATS, n_rot):
         t = [F(rng.randrange(-24, 25), 8) for _ in range(3)]
         fr.append((f"rot{q}", quat_rot(*q), t, 1))
     for k, v in enumerate(rng.sample(MIRRORS, n_ref)):
         H = householder(v)
-        if k % 2:
-            H = matmul(quat_rot(*rng.choice(QUATS)), H)
-        fr.append((f"mirror{v}{'+rot' if k % 2 else ''}", H, [F(rng.randrange(-8, 9), 8) for _ in range(3)], -1))
+        if k % 2 == 0:
+            q, R = random_rot(rng)
+            H = matmul(R, H)
+        fr.append((f"mirror{v}{'+randrot' + str(q) if k % 2 == 0 else ''}", H, [F(rng.randrange(-8, 9), 8) for _ in range(3)], -1))
     return fr
 
 
@@ -308,7 +344,19 @@ def frames(rng, n_rot, n_ref):
 def species_of(g):
     from autode.atoms import Atom
     from autode.species.species import Species
-    return Species("c03", [Atom(s, *p) for s, p in zip(g.syms, g.floats())], 0, 1)
+    return Species("c03", [Atom(s, *p) for s, p in zip(g.syms, g.floats())], charge_of(g), 1)
+
+
+CHARGES = {"SN2-ClCH3Cl": -1, "CH5-ties": 1, "CH5-distinct": 1, "FHF-HF-cluster": -1, "OH4-overcoordinated": 2,
+           "H3-triangle": 1}
+
+
+def charge_of(g):
+    """formal charge of the structure (charged species are in the quantifier; perception must ignore it)"""
+    base = g.name.split("|")[0]
+    if base.startswith("rdkit:"):
+        return base.count("+]") - base.count("-]")
+    return CHARGES.get(base, 0)
 
 
 def norm_edges(graph):
@@ -383,8 +431,11 @@ class Exact:
     def reference_edges(self):
         """The perceived graph according to the property, computed exactly and independently: all pairs
         within tolerance, then atom by atom in index order an atom that is over-coordinated AT THAT
-        MOMENT loses its longest bonds.  -> (sorted edges, log) or None when a cut falls on a tie
-        (or the structure has a near-threshold pair / radius error)."""
+        MOMENT loses its longest bonds, equally long ones in atom-index order (/repo 3e32450).
+        -> (sorted edges, log) or None when a cut falls inside the 1e-6 A rounding resolution of the
+        code's sort key without being an exact tie, or on a rounding boundary (margin class), or the
+        structure has a near-threshold pair / radius error.  self.exact_tie: a cut fell on an exact tie."""
+        self.exact_tie = False
         if self.radius_error or self.near:
             return None
         n = self.g.n
@@ -395,16 +446,34 @@ class Exact:
             if len(nb[i]) <= cap:
                 continue
             order = sorted(nb[i], key=lambda k: (self.d2[i][k], k))
-            if cap >= 1 and self.d2[i][order[cap]] - self.d2[i][order[cap - 1]] <= 4 * EPS * self.d2[i][order[cap]]:
-                return None
+            if cap >= 1:
+                da, db = self.d2[i][order[cap - 1]], self.d2[i][order[cap]]
+                if da == db:
+                    self.exact_tie = True
+                    x = math.sqrt(float(da)) * 1e6
+                    if abs(x - math.floor(x) - 0.5) < 1e-3:
+                        return None          # the common distance sits on a rounding boundary of round(d, 6)
+                elif math.sqrt(float(db)) - math.sqrt(float(da)) <= 1.1e-6:
+                    return None              # different distances inside the rounding resolution
             for j in order[cap:]:
                 nb[i].discard(j)
                 nb[j].discard(i)
                 log.append((i, j, len(order), cap))
         return sorted((i, j) for i in range(n) for j in nb[i] if i < j), log
 
+    def ref(self):
+        if not hasattr(self, "_ref"):
+            self._ref = self.reference_edges()
+        return self._ref
+
     def graph_decidable(self):
-        return self.radius_error or (not self.near and not self.cut_tie)
+        """the edge set is determined by the exact geometry (no near-threshold pair, no tie AT a cap cut)"""
+        return self.radius_error or self.ref() is not None
+
+    def tie_at_cut(self):
+        """a valence-cap cut falls on two EXACTLY equal distances (symmetric over-coordinated structure):
+        decided by atom index since /repo 3e32450, hence frame independent"""
+        return self.ref() is not None and self.exact_tie
 
     def linear_margin_ok(self, ct):
         return linear_margin_ok(self.g, ct)
@@ -415,20 +484,18 @@ class Exact:
 
 # are_linear / are_planar decision margins of a structure in ITS atom order and frame
 def linear_margin_ok(g, ct):
-    if True:
-        if g.n < 3:
-            return True
-        w = [a - b for a, b in zip(g.xyz[1], g.xyz[0])]
-        nw = sum(x * x for x in w)
-        for p in g.xyz[2:]:
-            v = [a - b for a, b in zip(p, g.xyz[0])]
-            nv = sum(x * x for x in v)
-            if nv == 0 or nw == 0:
-                continue         # nan in the code, 0 < 0 in the model: "not off" in both
-            c = abs(float(sum(a * b for a, b in zip(v, w)))) / math.sqrt(float(nv * nw))
-            if abs(c - ct) < 1e-9:
-                return False
+    """no angle (at any atom, between any two others) within 1e-9 of the linearity threshold"""
+    if g.n < 3:
         return True
+    X = np.array(g.floats())
+    for i in range(g.n):
+        V = np.delete(X, i, axis=0) - X[i]
+        nrm = np.linalg.norm(V, axis=1)
+        V = V[nrm > 0] / nrm[nrm > 0][:, None]     # zero vectors: nan in the code, "not off"
+        if len(V) and np.any(np.abs(np.abs(V @ V.T) - ct) < 1e-9):
+            return False
+    return True
+
 
 def planar_margin_ok(g, tol, eps=1e-8):
     if True:
@@ -572,7 +639,9 @@ class Oracles:
         kind = "reflection" if det < 0 else "rigid-motion"
         r = impl_graph(h)
         ctx.count("impl-oracle:frames", (g.name, tag, "graph"), nontrivial=g.n >= 2)
-        if ex.graph_decidable():
+        if ex.graph_decidable() and ex.tie_at_cut():
+            self.tie_probe(g, base, fr, r)
+        elif ex.graph_decidable():
             if r[:2] != base["graph"][:2]:
                 self.fail(f"graph|{kind}", f"{g.name}: perceived graph changes under {tag}: "
                           f"{base['graph'][1] if base['graph'][0] == 'ok' else base['graph']} -> {r[1] if r[0] == 'ok' else r}", rep)
@@ -605,6 +674,9 @@ class Oracles:
                 continue
             if a is None:
                 continue
+            if not (math.isfinite(a) and math.isfinite(b)):
+                self.fail(f"{name}|not-finite", f"{g.name}: {name}{tup} = {a!r} in the original frame, {b!r} under {tag}", r2)
+                continue
             if len(tup) == 4:
                 want = a * det
                 diff = abs(math.remainder(b - want, 2 * math.pi))
@@ -617,6 +689,21 @@ class Oracles:
                 tol = 1e-9 * max(1.0, abs(a)) if len(tup) == 2 else 2e-6
                 if abs(a - b) > tol:
                     self.fail(f"{name}|{kind}", f"{g.name}: {name}{tup} = {a!r} -> {b!r} under {tag}", r2)
+
+    # -- a valence-cap cut on two EXACTLY equal bonds: before /repo 3e32450 float rounding decided which one was
+    #    dropped and the graph of a symmetric over-coordinated structure depended on the frame; now the atom index
+    #    decides.  Probed in extra random exact-rational rotations (a reproduction is a violation).
+    def tie_probe(self, g, base, fr, r=None):
+        tag, R, t, det = fr
+        if r is None:
+            r = impl_graph(g.moved(R, t, tag))
+        self.ctx.count("impl-oracle:valence-cap-ties", (g.name, tag), nontrivial=True)
+        if r[:2] != base["graph"][:2]:
+            rep = {"kind": "frame", "structure": g.replay(), "frame": tag,
+                   "R": [[str(x) for x in row] for row in R], "t": [str(x) for x in t], "det": det}
+            self.fail("make_graph|valence-cap-tie|rotation", f"{g.name}: an over-coordinated atom has two equally long bonds "
+                      f"at its valence-cap cut; which one is dropped depends on the frame, the perceived graph changes under "
+                      f"{tag}: {base['graph'][1]} -> {r[1] if r[0] == 'ok' else r}", rep)
 
     # -- permutation oracle
     def permutation(self, g, ex, base, sigma, do_sn):
@@ -639,16 +726,18 @@ class Oracles:
                 else:
                     self.fail("graph|permutation", f"{g.name} (no over-coordinated atom): perceived graph is not carried "
                               f"along by the relabelling {list(sigma)}: {r[1]} vs {want}", rep)
-        if ex.radius_error or ex.overcoordinated:
-            return      # the property exempts structures with over-coordinated atoms
         lin, pla = self.shape(h)
         ctx.count("impl-oracle:permutations", (g.name, tuple(sigma), "shape"), nontrivial=g.n >= 3)
-        self.shape_after_relisting(g, h, base, sigma, lin, pla, rep, "new species")
+        # linearity never depends on the atom order (theorem linear_perm_invariant); planarity and the symmetry
+        # number are compared for structures without over-coordinated atoms (the property's proviso)
+        self.shape_after_relisting(g, h, base, sigma, lin, None if (ex.radius_error or ex.overcoordinated) else pla, rep, "new species")
+        if ex.radius_error or ex.overcoordinated:
+            return
         if do_sn and base["sn"] is not None and lin == base["shape"][0]:
             ctx.count("impl-oracle:symmetry-number", (g.name, tuple(sigma)), nontrivial=g.n >= 2)
             s = self.sn(h)
             if s != base["sn"]:
-                self.fail("sn|permutation", f"{g.name}: symmetry number {base['sn']} -> {s} when the atoms are listed as "
+                self.fail(sn_perm_key(g), f"{g.name}: symmetry number {base['sn']} -> {s} when the atoms are listed as "
                           f"{list(sigma)}", rep)
 
     # -- make_graph with a SEQUENCE of tolerances on one species in one process: every graph must obey
@@ -729,21 +818,143 @@ class Oracles:
                 ctx.count("impl-oracle:symmetry-number", (g.name, "reorder", tuple(sigma)), nontrivial=True)
                 sn = int(sp.sn)
                 if sn != base["sn"]:
-                    self.fail("sn|permutation", f"{g.name}: symmetry number {base['sn']} -> {sn} after reorder_atoms({mapping})", rep)
+                    self.fail(sn_perm_key(g), f"{g.name}: symmetry number {base['sn']} -> {sn} after reorder_atoms({mapping})", rep)
 
     def shape_after_relisting(self, g, h, base, sigma, lin, pla, rep, how):
         if base["lin_ok"] and linear_margin_ok(h, self.ct) and lin != base["shape"][0]:
-            dev = line_deviation_deg(g)
-            # tolerance band: bends between a quarter of and five times the 1 degree tolerance
-            key = "is_linear|permutation|near-threshold" if 0.25 <= dev <= 5.0 else "is_linear|permutation"
-            self.fail(key, f"{g.name}: is_linear {base['shape'][0]} -> {lin} when the atoms are listed as {list(sigma)} "
-                      f"({how}; largest angular deviation from a line {dev:.3f} deg)", rep)
-        if base["pla_ok"] and planar_margin_ok(h, self.ptol) and pla != base["shape"][1]:
+            self.fail("is_linear|permutation", f"{g.name}: is_linear {base['shape'][0]} -> {lin} when the atoms are listed as "
+                      f"{list(sigma)} ({how}; largest angular deviation from a line {line_deviation_deg(g):.3f} deg)", rep)
+        if pla is not None and base["pla_ok"] and planar_margin_ok(h, self.ptol) and pla != base["shape"][1]:
             dev = plane_deviation(g)
             # tolerance band of the un-normalised test |n| * distance > 1e-4 with |n| in about [1e-2, 1e2]
             key = "is_planar|permutation|near-threshold" if 1e-6 <= dev <= 0.05 else "is_planar|permutation"
             self.fail(key, f"{g.name}: is_planar {base['shape'][1]} -> {pla} when the atoms are listed as {list(sigma)} "
                       f"({how}; largest distance from the best plane {dev:.4f} A)", rep)
+
+    # -- rigid motions applied through the PUBLIC API (Species.translate / rotate, Atom.rotate) with arguments that
+    #    alias the structure's own data, and observables of ONE species object after its atoms were moved
+    def api_motions(self, g, ex, base, do_sn):
+        from scipy.spatial import distance_matrix
+        from autode.atoms import Atom
+        from autode.species.species import Species
+        ctx, n = self.ctx, g.n
+        if n < 2 or ex.radius_error:
+            return
+        sp = species_of(g)
+        rep = {"kind": "api-motions", "structure": g.replay()}
+        idx = index_tuples(random_for(g), g, 2)
+
+        def D():
+            X = np.array(sp.coordinates, dtype=float)
+            return distance_matrix(X, X)
+
+        def vals():
+            out = []
+            for t in idx:
+                try:
+                    out.append(float({2: sp.distance, 3: sp.angle, 4: sp.dihedral}[len(t)](*t)))
+                except ValueError:
+                    out.append(None)
+            return out
+
+        def fresh():
+            return Species("fresh", [Atom(a.label, *[float(x) for x in a.coord]) for a in sp.atoms], charge_of(g), 1)
+
+        def observe(s_, with_sn=True):
+            return (bool(s_.is_linear()), bool(s_.is_planar()), int(s_.sn) if (do_sn and with_sn) else None)
+        D0, v0 = D(), vals()
+        o0 = observe(sp)                       # queried BEFORE any motion (a cached value would come from here)
+
+        def rigid_ok(step, with_sn=False):
+            ctx.count("impl-oracle:api-motions", (g.name, step), nontrivial=True)
+            d = float(np.max(np.abs(D() - D0)))
+            if not d <= 1e-9:
+                self.fail(f"{step}|distances", f"{g.name}: {step} changed the interatomic distances by up to {d:.4f} A", dict(rep, step=step))
+                return False
+            for t, a, b in zip(idx, v0, vals()):
+                if (a is None) != (b is None) or (a is not None and not (abs(a - b) <= (1e-9 if len(t) == 2 else 2e-6)
+                                                                         or (len(t) == 4 and abs(abs(a) - math.pi) < 1e-6))):
+                    self.fail(f"{step}|{ {2: 'distance', 3: 'angle', 4: 'dihedral'}[len(t)] }", f"{g.name}: {step}: value for atoms {t} "
+                              f"changed {a!r} -> {b!r}", dict(rep, step=step))
+                    return False
+            o = observe(sp, with_sn)
+            names = ("is_linear", "is_planar", "sn")
+            oks = (base["lin_ok"], base["pla_ok"], with_sn)
+            for nm, a, b, ok in zip(names, o0, o, oks):
+                if ok and a != b:
+                    self.fail(f"{step}|{nm}", f"{g.name}: {nm} {a} -> {b} after {step}", dict(rep, step=step))
+                    return False
+            if ex.graph_decidable() and base["graph"][0] == "ok":
+                f = fresh()
+                from autode.mol_graphs import make_graph
+                make_graph(f)
+                if norm_edges(f.graph) != base["graph"][1]:
+                    self.fail(f"{step}|graph", f"{g.name}: graph perceived after {step} {norm_edges(f.graph)} != {base['graph'][1]}", dict(rep, step=step))
+                    return False
+            return True
+        sp.translate(vec=-sp.atoms[0].coord)
+        if not rigid_ok("Species.translate(-atoms[0].coord)"):
+            return
+        k = int(np.argmax(D()[0]))
+        if D()[0][k] < 1e-6:
+            return
+        before = np.array(sp.atoms[k].coord, dtype=float)
+        sp.rotate(axis=sp.atoms[k].coord, theta=0.7 + 0.1 * (n % 7))
+        moved = float(np.linalg.norm(np.array(sp.atoms[k].coord, dtype=float) - before))
+        if moved > 1e-9:
+            self.fail("Species.rotate(axis=atoms[k].coord)|axis-atom-moved", f"{g.name}: the atom on the rotation axis moved by {moved:.4f} A",
+                      dict(rep, step="rotate"))
+            return
+        if not rigid_ok("Species.rotate(axis=atoms[k].coord)", True):
+            return
+        axis = sp.atoms[k].coord
+        for atom in sp.atoms:
+            atom.rotate(axis=axis, theta=-0.45)
+        if not rigid_ok("Atom.rotate(axis=atoms[k].coord) for every atom"):
+            return
+        # state: move one atom through the Atom-level API; every observable must describe the CURRENT geometry
+        j = n - 1 if k != n - 1 else 0
+        for step, move in (("atoms[j].translate", lambda: sp.atoms[j].translate(vec=np.array([0.37, 0.21, -0.45]))),
+                           ("atoms[j].coord = ...", lambda: setattr(sp.atoms[j], "coord", np.array(sp.atoms[j].coord) + np.array([-0.2, 0.55, 0.3]))),
+                           ("Species.rotate after a distortion", lambda: sp.rotate(axis=[1.0, 2.0, -1.0], theta=1.1))):
+            move()
+            ctx.count("impl-oracle:api-motions", (g.name, "state", step), nontrivial=True)
+            first = step == "atoms[j].translate"
+            o, of = observe(sp, first), observe(fresh(), first)
+            for nm, a, b in zip(("is_linear", "is_planar", "sn"), o, of):
+                if a != b:
+                    self.fail(f"state|{nm}-stale", f"{g.name}: after {step} the species reports {nm} = {a}, a new species with the "
+                              f"identical atoms reports {b}", dict(rep, step=step))
+                    return
+
+
+def random_for(g):
+    import random
+    return random.Random(sum(map(ord, g.name)) + g.n)
+
+
+def sn_perm_key(g):
+    """The known atom-order dependence of the symmetry number comes from the greedy clustering of candidate
+    axes (pair vectors, bisectors and normals of triples with both legs < 2 A) within 0.1: it needs two
+    DIFFERENT candidate directions closer than that.  Structures without such a pair get the plain key."""
+    X = np.array(g.floats())
+    X = X - X.mean(axis=0)
+    cand = []
+    for i in range(g.n):
+        for j in range(g.n):
+            if i > j:
+                cand.append(X[j] - X[i])
+            for k in range(g.n):
+                if len({i, j, k}) == 3:
+                    v1, v2 = X[j] - X[i], X[k] - X[i]
+                    if np.linalg.norm(v1) < 2.0 and np.linalg.norm(v2) < 2.0:
+                        cand += [(v1 + v2) / 2.0, np.cross(v1, v2)]
+    U = np.array([v / np.linalg.norm(v) for v in cand if np.linalg.norm(v) > 1e-8])
+    if len(U) == 0:
+        return "sn|permutation"
+    C = np.abs(U @ U.T)
+    close = (C > 1.0 - 0.5 * 0.13 ** 2) & (C < 1.0 - 1e-9)
+    return "sn|permutation|clustered-candidate-axes" if bool(close.any()) else "sn|permutation"
 
 
 def reorder_sigmas(rng, n, full):
@@ -772,7 +983,7 @@ def stretched(rng, g):
     return Geo(f"{g.name}|stretch{sc}", g.kind, g.syms, [[g64(float(v * sc)) for v in p] for p in g.xyz])
 
 
-def index_tuples(rng, g, k):
+def index_tuples(rng, g, k, extras=True):
     out = []
     if g.n >= 2:
         out += [tuple(rng.sample(range(g.n), 2)) for _ in range(k)]
@@ -780,7 +991,9 @@ def index_tuples(rng, g, k):
         out += [tuple(rng.sample(range(g.n), 3)) for _ in range(k)]
     if g.n >= 4:
         out += [tuple(rng.sample(range(g.n), 4)) for _ in range(k)]
-    return out
+    if extras and 3 <= g.n <= 4:
+        out += [(i, j, m) for j in range(g.n) for i in range(g.n) for m in range(i + 1, g.n) if j not in (i, m)]
+    return list(dict.fromkeys(out))
 
 
 # ----------------------------------------------------------------------------------- Coq terms
@@ -870,7 +1083,7 @@ def model_terms(ctx, structs, frs, consts, terms, descr, rng, nmax):
             d = {"structure": h.replay(), "frame": tag}
             ctx.hist("model-vs-impl:graph", f"{g.kind}:n={min(g.n, 12) if g.n < 12 else '12+'}")
             # graph (a tie at a valence-cap cut is decided by argsort's unspecified order on ties)
-            if ex.radius_error or (not ex.near and not ex.cut_tie):
+            if ex.graph_decidable():
                 r, ru = impl_graph(h), impl_graph(h, allow=True)
                 add("graph", f"check_graph {rel} {el} {ps} {coq_gres(r)}", dict(d, kind="graph", impl=r[1] if r[0] == "ok" else r[0]),
                     (h.name, "graph"), nontrivial=h.n >= 2)
@@ -896,7 +1109,23 @@ def model_terms(ctx, structs, frs, consts, terms, descr, rng, nmax):
                 add("shape", f"check_planar {ptol} {ps} {coq_bool(b)}", dict(d, kind="is_planar", impl=b), (h.name, "planar"), nontrivial=h.n >= 4)
             else:
                 skipped["planar"] += 1
-            for tup in index_tuples(rng, h, 1) + ([(0, 0), (0, h.n)] if h.n >= 1 and dyadic else []) + \
+            if dyadic and h.n >= 3 and (not ctx.quick or g.kind not in ("rdkit", "jitter", "cluster")):
+                # non-default tolerances of the public predicates
+                from autode.values import Angle
+                for deg in (5.0, 0.2):
+                    ct2 = 1.0 - float(np.abs(1.0 - np.cos(Angle(deg, "deg").to("rad"))))
+                    if linear_margin_ok(h, ct2):
+                        b = bool(sp.is_linear(angle_tol=Angle(deg, "deg")))
+                        add("shape", f"check_linear {qc(ct2)} {ps} {coq_bool(b)}", dict(d, kind=f"is_linear(angle_tol={deg} deg)", impl=b),
+                            (h.name, "linear", deg))
+                ct3 = 1.0 - float(np.abs(1.0 - np.cos(float(np.arccos(1.0 - 0.01)))))
+                if linear_margin_ok(h, ct3):
+                    b = bool(sp.is_linear(tol=0.01))
+                    add("shape", f"check_linear {qc(ct3)} {ps} {coq_bool(b)}", dict(d, kind="is_linear(tol=0.01)", impl=b), (h.name, "linear", "tol"))
+                if h.n >= 4 and planar_margin_ok(h, 0.05):
+                    b = bool(sp.is_planar(tol=0.05))
+                    add("shape", f"check_planar {qc(0.05)} {ps} {coq_bool(b)}", dict(d, kind="is_planar(tol=0.05)", impl=b), (h.name, "planar", 0.05))
+            for tup in index_tuples(rng, h, 1, extras=dyadic and g.kind in ("linear", "planar")) + ([(0, 0), (0, h.n)] if h.n >= 1 and dyadic else []) + \
                     ([(0, 1, 1), (0, 1, 2, 2)] if h.n >= 3 and dyadic else []):
                 name = {2: "distance", 3: "angle", 4: "dihedral"}[len(tup)]
                 try:
@@ -904,6 +1133,7 @@ def model_terms(ctx, structs, frs, consts, terms, descr, rng, nmax):
                 except ValueError:
                     v = None
                 if v is not None and not math.isfinite(v):
+                    add("geometry", "false", dict(d, kind=name + "-not-finite", indexes=list(tup), impl=repr(v)), (h.name, name, tup))
                     continue
                 args = " ".join(f"{k}%nat" for k in tup)
                 if len(tup) == 2:
@@ -924,7 +1154,7 @@ def record_terms(ctx, orc, terms, descr, nmax, limit):
 
     def el_of(g):
         return coq_list([f"{A.elements.index(s)}%nat" for s in g.syms])
-    seq = [r for r in orc.seq_records if r[0].n <= nmax and not r[3].near and not r[3].cut_tie]
+    seq = [r for r in orc.seq_records if r[0].n <= nmax and r[3].graph_decidable() and not r[3].radius_error]
     seq = [r for r in seq if abs(r[1] - orc.rel) > 1e-12] + [r for r in seq if abs(r[1] - orc.rel) <= 1e-12]
     for g, tol, edges, _ in seq[:limit]:
         terms.append(f"check_graph {qc(tol)} {el_of(g)} {coq_ps(g)} {coq_gres(('ok', edges))}")
@@ -938,7 +1168,7 @@ def record_terms(ctx, orc, terms, descr, nmax, limit):
             continue
         if g.name not in cache:
             ex = Exact(g)
-            cache[g.name] = not ex.near and not ex.cut_tie and not ex.radius_error
+            cache[g.name] = ex.graph_decidable() and not ex.radius_error
         if not cache[g.name]:
             continue
         k += 1
@@ -975,9 +1205,14 @@ def run_oracles(ctx, structs, consts):
             base["sn"] = orc.sn(g)
         idx = index_tuples(rng, g, 2 if full else 1)
         base_vals = orc.geom_values(g, idx)
-        frs = frames(rng, 3 if full else 1, 3 if full else 1)
+        frs = frames(rng, 3 if full else 1, 3 if full else 1, 3 if full else 1)
         for k, fr in enumerate(frs):
-            orc.frame(g, ex, base, fr, do_sn and (full or k == 1 + len(g.name) % 2), idx, base_vals)
+            orc.frame(g, ex, base, fr, do_sn and (full or k == 1 + len(g.name) % 3), idx, base_vals)
+        if ex.tie_at_cut() and r[0] == "ok":
+            for fr in frames(rng, 0, 2, 12 if full else 8)[1:]:
+                orc.tie_probe(g, base, fr)
+        if g.kind not in ("jitter",) and (full or g.n <= 8 or g.kind != "rdkit"):
+            orc.api_motions(g, ex, base, do_sn and g.n <= (8 if full else 5))
         if g.n >= 2:
             for _ in range(3 if full else (2 if g.kind not in ("rdkit", "jitter") else 1)):
                 sigma = list(range(g.n))
@@ -1021,8 +1256,21 @@ def run(ctx):
     # 2. proofs over the regenerated definitions
     info = {"hygiene": [], "log_tail": out, "build_ok": False}
     proofs_ok = False
+    def gen_sha():
+        import hashlib
+        try:
+            return hashlib.sha256(open(f"{VERIF}/coq/gen/C03_Gen.v", "rb").read()).hexdigest()
+        except OSError:
+            return None
     if translated:
+        h1 = gen_sha()
         proofs_ok, info = ctx.proofs(SLICE, "C03/Props.v", "AV.C03.Props", extra_targets=["C03/Corr.vo"])
+        if gen_sha() != h1:
+            # a concurrent run for another VERIF_REPO rewrote the shared generated file: regenerate and rebuild once
+            ctx.log("gen/C03_Gen.v changed during the build (concurrent run): regenerating")
+            ctx.cov["obligations"], ctx.cov["discharged"], ctx.cov["theorems"] = 0, 0, []
+            rc, out = sh(["python3", f"{VERIF}/tr/translate_c03.py"], timeout=120)
+            proofs_ok, info = ctx.proofs(SLICE, "C03/Props.v", "AV.C03.Props", extra_targets=["C03/Corr.vo"])
         ctx.log("proofs:", "ok" if proofs_ok else "BROKEN")
         ctx.cov["print_assumptions"] = info.get("assumptions", {})
     else:
@@ -1090,6 +1338,8 @@ def replay(ctx, obj):
         orc.reorder_api(g, ex, base, rep["sigma"], base["sn"] is not None)
     elif rep.get("kind") == "tolerance-sequence":
         orc.tolerance_sequence(g, rep["sequence"])
+    elif rep.get("kind") == "api-motions":
+        orc.api_motions(g, ex, base, base["sn"] is not None)
     # the same structure on the model (Coq), compared with what the implementation returns now
     terms, descr = [], []
     model_terms(ctx, [g], [], consts, terms, descr, ctx.rng, 10**6)
@@ -1103,7 +1353,8 @@ def replay(ctx, obj):
 MANIFEST = {
     "technique": "Coq proof over a hand model whose tables and threshold tests are regenerated from source (ast translator) "
                  "+ model/implementation correspondence in exactly rotated / reflected frames + implementation-side frame, "
-                 "reflection, permutation, reorder_atoms and tolerance-sequence oracles",
+                 "reflection (incl. random exact-rational rotations), permutation, reorder_atoms, tolerance-sequence, "
+                 "valence-cap-tie and api-motions / object-state oracles",
     "level_text": ("Machine-checked theorems (coq/C03/Props.v, closed under the global context) for EVERY atom count, every "
                    "orthogonal matrix R (R^T R = I, hence det R = +-1) and translation: squared distances, the cosine of "
                    "every angle and both dihedral numerators are invariant under proper rigid motion, the dihedral sine "
@@ -1115,7 +1366,8 @@ MANIFEST = {
                    "treated; is_linear and is_planar models are invariant under rotation, translation and reflection (the "
                    "planarity proof goes through the generated |.| test: the one-sided pre-805490b test is refuted by a "
                    "witness); the unpruned edge set is equivariant under every relabelling and, without over-coordinated "
-                   "atoms, so is the whole graph (with over-coordination the order dependence is exhibited by a witness)."),
+                   "atoms, so is the whole graph (with over-coordination the order dependence is exhibited by a witness); "
+                   "linearity (angles at every atom) is invariant under EVERY permutation of the atom list."),
     "level_note": ("PARTIAL: the rotational symmetry number search (thermochemistry/symmetry.py) is not modelled; it is only "
                    "compared between frames, mirror images and (exactly symmetric templates) atom orders on the "
                    "implementation.  Trusted: Coq kernel + vm_compute (table sweep, witnesses); tr/translate_c03.py "
@@ -1123,6 +1375,12 @@ MANIFEST = {
                    "runtime objects); the hand model of the make_graph double loop, the valence-cap loop, are_linear in "
                    "squared-cosine form and the normal search of are_planar (tied by correspondence on k/64-grid "
                    "structures in exact rational frames); sqrt/acos/atan2 and IEEE rounding are outside the theorems "
-                   "(decisions within 1e-9 of a threshold and valence-cap ties are skipped and counted).  Known, listed: "
-                   "is_linear / is_planar depend on the atom order inside their tolerance bands."),
+                   "(decisions within 1e-9 of a threshold are skipped and counted).  graph_function_of_distance_matrix is "
+                   "true by construction of the model (its content is model fidelity, checked by correspondence).  The cap "
+                   "orders equally long bonds by atom index (cap_ties_removed_by_index; /repo 3e32450 repaired the "
+                   "rounding-driven frame dependence of symmetric over-coordinated structures, still probed under "
+                   "make_graph|valence-cap-tie|rotation).  Frame theorems quantify over rational orthogonal matrices.  "
+                   "Planarity has no permutation theorem (known: is_planar|permutation|near-threshold); linearity has "
+                   "(linear_perm_invariant, after /repo 5a4ab9d).  Public rigid motions (Species.translate/rotate, "
+                   "Atom.rotate) and object state (stale observables) are exercised by the api-motions stream only."),
 }
